@@ -1,10 +1,13 @@
-"""C17 — configuration of the check (deductive tier under construction)."""
+"""C17 — The WTML and the returned data-set description match the files on disk."""
 PROPERTY = "C17"
-LEVEL = "exploration"
-CONTRACT_MODULES = ["contracts.specfuns"]
-FUNCTIONS = []
-LEMMAS = []
+LEVEL = "other"
+CONTRACT_MODULES = ["contracts.specfuns", "contracts.lemmas_desc", "contracts.pyramid", "contracts.image", "contracts.merge",
+                    "contracts.pyramidio", "contracts.study", "contracts.paths"]
+FUNCTIONS = ["toasty.pyramid.PyramidIO.tile_path", "toasty.builder.Builder.__init__", "toasty.study.StudyTiling.apply_to_imageset"]
+LEMMAS = ["digits_then_separator_parse_uniquely"]
 SLOW = ()
-TRUSTED_BASE = []
-ASSUMPTIONS = []
-EXPLANATION = "bounded run-time tier only so far"
+TRUSTED_BASE = ["pyvc VC generator; z3/cvc5 (cvc5 --strings-exp for the string lemma)",
+                "WTML template semantics: {1} level, {2} x, {3} y in decimal; str() of a non-negative int is its decimal "
+                "representation (digits only, injective); os.path.join joins with '/'"]
+ASSUMPTIONS = ["the history part (reuse of an output directory) and the written XML are covered by the bounded tier"]
+EXPLANATION = "path = template expansion for both naming schemes and unique parsing (injectivity) proved; workflows and histories bounded"
